@@ -298,11 +298,40 @@ def r4(ctx):
         ctx.check(decided and res is want, key, f"must be True iff the command is non-empty and the file has a source extension: {p.describe()}", sup.loc())
     # schema validation
     ff = cc.module.classes["CompilationDatabase"].find_method("from_file")
-    ok = any(u(c.func) == "codebasin.util._load_json" for c in ff.calls())
-    ctx.soft(ok, "__init__:CompilationDatabase.from_file:validated", "from_file must load through the validating loader", ff.loc())
+    # table specifications: from_file loads through the validating loader; _validate_json validates the object it was
+    # given against the schema file that belongs to the given name, and lets a validation error out as ValueError
+    from ..spec import tab, vt
+
+    for p in tab(ff):
+        res = vt(p.result[1]) if p.result[0] == "return" else ""
+        ok = "codebasin.util._load_json(" in res and "schema_name='compiledb'" in res.replace('"', "'") and ".from_json(" in res
+        ctx.check(ok, "__init__:CompilationDatabase.from_file:validated", f"from_file must load through the validating loader (util._load_json(..., schema_name='compiledb')) and build the database with from_json: returns `{res[:120]}`", ff.loc())
     vj = repo.func("util", "_validate_json")
-    ok = "jsonschema.validate(instance=json_object, schema=schema)" in u(vj.node) and "'compiledb': 'schema/compilation-database.schema'" in u(vj.node)
-    ctx.soft(ok, "util:_validate_json:validates", "_validate_json must validate against the named schema", vj.loc())
+    SCHEMAS = {"analysis": "schema/analysis.schema", "compiledb": "schema/compilation-database.schema", "coverage": "schema/coverage.schema", "cbiconfig": "schema/cbiconfig.schema"}
+    obj, sname = vj.params[0], vj.params[1]
+    n_ok = 0
+    for p in tab(vj, unroll=1):
+        at = {vt(k): v for k, v in p.atoms.items()}
+        named = [n for n in SCHEMAS if at.get(f"'{n}' Eq {sname}") is True]
+        vals = [e for e in p.effects if e[0] == "call" and e[1] == "jsonschema.validate"]
+        key = f"util:_validate_json:validates:{named[0] if named else 'unknown-name'}"
+        if not named:
+            if any(k.startswith("'") and k.endswith(f" Eq {sname}") for k in at):
+                ctx.check(p.result[0] == "raise" and not vals, key, f"an unknown schema name must be refused: {p.describe()[:160]}", vj.loc())
+                continue
+            raise AnalysisError(f"_validate_json: schema selection not recognised: {p.describe()[:160]}")
+        if p.result == ("return", True):
+            n_ok += 1
+            args = {x[0]: vt(x[1]) for e in vals for x in e[2:] if isinstance(x, tuple) and len(x) == 2}
+            pos = [vt(x) for e in vals for x in e[2:] if not (isinstance(x, tuple) and len(x) == 2)]
+            inst = args.get("instance", pos[0] if pos else None)
+            sch = args.get("schema", pos[1] if len(pos) > 1 else None)
+            ok = len(vals) == 1 and inst == obj and sch is not None and SCHEMAS[named[0]] in sch
+            ctx.check(ok, key, f"`{named[0]}` must be validated against {SCHEMAS[named[0]]}: jsonschema.validate(instance={inst}, schema={str(sch)[:80]})", vj.loc())
+        elif any(k.startswith("raises(jsonschema.validate") and "ValidationError" in k and v for k, v in at.items()):
+            ctx.check(p.result[0] == "raise" and "ValueError" in str(p.result[1]), key + ":invalid", "an object that does not validate must be refused with ValueError (the loaders report it and drop the file)", vj.loc())
+    if n_ok < 4:
+        raise AnalysisError(f"_validate_json: only {n_ok} of the four schema names reach a successful validation")
     ctx.floor(4)
 
 
